@@ -196,6 +196,24 @@ def _decide(es, prim_eqs, prim_vars, inverter, A_full, b_full, cols_p, mon, deta
                   "repeated-assembly:expanded-solution-differs-from-full-solution", scale=sc,
                   detail=dict(detail, assembly=rep))
         mon.count("repeated_assemblies_checked")
+    # linearisation at an explicitly given state that differs from the stored iterate (a
+    # line-search trial state): every block of the reduced system must be taken there
+    x_st = np.asarray(es.get_variable_values(iterate_index=0), dtype=float)
+    x1 = x_st + 0.05 * np.cos(np.arange(x_st.size) * 1.7 + 0.3)
+    A1, b1 = es.assemble(state=x1)
+    A1 = A1.toarray()
+    if np.linalg.cond(A1) <= COND_MAX:
+        xf1 = np.linalg.solve(A1, b1)
+        S3, rhs3 = es.assemble_schur_complement_system(prim_eqs, prim_vars, inverter=inverter,
+                                                       state=x1)
+        S3 = S3.toarray() if sps.issparse(S3) else np.asarray(S3)
+        x3 = es.expand_schur_complement_solution(np.linalg.solve(S3, np.asarray(rhs3).ravel()))
+        mon.close("explicit_state_solution_vs_full", x3, xf1, TOL,
+                  "explicit-state:expanded-solution-differs-from-full-solution",
+                  scale=max(float(np.max(np.abs(xf1))), 1e-12), detail=detail)
+        mon.count("explicit_state_assemblies_checked")
+    else:
+        mon.excluded("cond(A) above 1e4 at the explicit trial state")
 
 
 def _structured_J(rng, n, rows_p, rows_s, cols_p, cols_s, secondary):
